@@ -75,8 +75,9 @@ impl<const N: usize> error::TexError for OutOfBoundsError<N> {
 impl Parsable for char {
     fn parse_impl<S: TexlangState>(input: &mut vm::ExpandedStream<S>) -> txl::Result<Self> {
         let (first_token, i, _) = parse_integer(input)?;
-        if i < 0 || i as usize >= char::MAX as usize {
-            input.error(OutOfBoundsError::<{ char::MAX as usize }> {
+        // char::MAX (U+10FFFF) is itself a character: the bound is exclusive.
+        if i < 0 || i as usize > char::MAX as usize {
+            input.error(OutOfBoundsError::<{ char::MAX as usize + 1 }> {
                 first_token,
                 got: i,
             })?;
